@@ -31,6 +31,8 @@ type Op struct {
 	Release string         `json:"release,omitempty"`
 	Chart   *ChartSpec     `json:"chart,omitempty"`
 	Values  map[string]any `json:"values,omitempty"`
+	// NilValues: with no Values, pass a nil map to the action (Go API callers may) instead of an empty one.
+	NilValues bool `json:"nil_values,omitempty"`
 
 	Atomic        bool `json:"atomic,omitempty"`
 	Replace       bool `json:"replace,omitempty"`
@@ -81,6 +83,7 @@ func (o Op) Short() string {
 	add(o.TakeOwnership, "take-ownership")
 	add(o.DryRun, "DryRun")
 	add(o.ClientOnly, "client-only")
+	add(o.NilValues && o.Values == nil, "nil-values")
 	add(o.ResetValues, "reset-values")
 	add(o.ReuseValues, "reuse-values")
 	add(o.ResetThenReuseValues, "reset-then-reuse")
@@ -195,7 +198,7 @@ func (w *World) ExecThread(op Op, fault *sim.Fault, thread int, sharedMem *drive
 	if op.Values != nil {
 		v, _ := copystructure.Copy(op.Values)
 		vals = v.(map[string]any)
-	} else {
+	} else if !op.NilValues {
 		vals = map[string]any{}
 	}
 	var ch *chart.Chart
